@@ -37,7 +37,7 @@ def shapes():
 OPS = ["jacobian", "grad", "elementwise_grad", "hessian", "make_hvp", "hessian_tensor_product", "tensor_jacobian_product", "make_ggnvp",
        "make_ggnvp-g", "make_jvp", "deriv", "make_jvp_reversemode", "value_and_grad", "grad_and_aux", "grad_named", "make_vjp", "holomorphic_grad",
        "hessian_vector_product", "vector_jacobian_product"]
-LAYOUTS = ["pos0", "pos1", "pos2", "kwargs", "tuple-argnum", "list-argnum"]
+LAYOUTS = ["pos0", "pos1", "pos2", "kwargs", "tuple-argnum", "list-argnum", "tuple1-argnum", "list1-argnum"]
 
 
 def ops_factory(quick, seed):
@@ -89,6 +89,10 @@ def ops_factory(quick, seed):
         elif layout == "kwargs":
             scale = 2.5
             fun, args, argnum, kw = (lambda xx, pad, scale=1.0: core(xx, scale) + 0.0 * pad), (x, 0.5), 0, dict(scale=2.5)
+        elif layout in ("tuple1-argnum", "list1-argnum"):
+            # a one-element tuple/list of positions with a single positional argument: the result is still a 1-tuple
+            fun, args, kw = (lambda xx: core(xx)), (x,), {}
+            argnum = (0,) if layout == "tuple1-argnum" else [0]
         else:
             # two differentiated arguments selected by a tuple/list of positions; f adds a linear term in the second one
             c2 = fill(O, 5, -1.0, 1.0, seed)
@@ -112,7 +116,28 @@ def ops_factory(quick, seed):
         with warnings.catch_warnings():
             warnings.simplefilter("ignore")
             try:
-                if multi:
+                if layout in ("tuple1-argnum", "list1-argnum"):
+                    ones = onp.ones(O) if O else 1.0
+                    if op in ("grad", "value_and_grad") and not scalar_out:
+                        raise Skip("scalar output only")
+                    if op == "grad":
+                        got = ag.grad(fun, argnum)(*args)
+                    elif op == "value_and_grad":
+                        val, got = ag.value_and_grad(fun, argnum)(*args)
+                        if not onp.allclose(val, yv, rtol=1e-13, atol=1e-13):
+                            got = ("bad-primal", val)
+                    elif op == "elementwise_grad":
+                        got = ag.elementwise_grad(fun, argnum)(*args)
+                    elif op == "make_vjp":
+                        got = ag.make_vjp(fun, argnum)(*args)[0](ones)
+                    elif op == "make_jvp":
+                        got = (ag.make_jvp(fun, argnum)(*args)((v_in,))[1],)
+                    else:
+                        raise Skip("operator takes a single argnum")
+                    want = ((Jm @ onp.asarray(v_in).reshape(-1)).reshape(O),) if op == "make_jvp" else (Jm.sum(axis=0).reshape(I),)
+                    if not isinstance(got, tuple):
+                        got = ("not-a-tuple", got)
+                elif multi:
                     c2m = c2.reshape(no)
                     if op in ("grad", "value_and_grad", "elementwise_grad", "make_vjp"):
                         if op in ("grad", "value_and_grad") and not scalar_out:
@@ -276,6 +301,35 @@ def misc_factory(quick, seed):
         ("outer grad through make_hvp's gradient value", lambda: ag.grad(lambda x: np.sum(ag.make_hvp(lambda y: np.sum(y ** 3))(x)[1]))(onp.array([1.0, 2.0])), onp.array([6.0, 12.0])),
         ("hessian symmetric", lambda: (lambda Hm: float(onp.max(onp.abs(Hm - Hm.T))))(ag.hessian(lambda x: np.sum(np.sin(x) * x[::-1]))(onp.array([0.3, 0.7, 1.1]))), 0.0),
     ]
+
+    def named_after_collected():
+        """grad_named on a function object that is created after another function (other parameter order) was collected, and that
+        happens to live at the same address: the result must depend on the function it is given, not on the earlier one."""
+        def mk(order):
+            if order == 0:
+                def f(xx, a, b):
+                    return a * xx ** 2 + 0.0 * b
+            elif order == 1:
+                def f(a, xx, b):
+                    return a * xx ** 2 + 0.0 * b
+            else:
+                def f(a, b, xx):
+                    return a * xx ** 2 + 0.0 * b
+            return f
+        res, reused = [], 0
+        prev = None
+        for k in range(60):
+            order = k % 3
+            f = mk(order)
+            reused += int(id(f) == prev)
+            args = [2.0, 5.0]
+            args.insert(order, 3.0)          # xx = 3, a = 2, b = 5  ->  d/dxx = 12
+            res.append(float(ag.grad_named(f, "xx")(*args)))
+            prev = id(f)
+            del f
+        return (min(res), max(res), reused > 0)
+
+    PASS.append(("grad_named follows the function it is given (fresh functions reuse addresses of collected ones)", named_after_collected, (12.0, 12.0, True)))
 
     def h(ch):
         kind = ch.choose("kind", ["must-raise", "pass-through"])
